@@ -583,6 +583,12 @@ def rule_whole_request(ctx, R="C17/whole-request"):
             lens = [buf[2][1]]
         elif buf[0] == "call" and buf[1].split("::")[-1] in ("deref_mut", "as_mut_slice", "as_mut", "index_mut", "spare_capacity_mut") and buf[2]:
             lens = [q[2][1] for q in walk(buf) if q[0] == "call" and q[1].split("::")[-1] in ("resize", "from_elem", "with_capacity", "try_reserve_exact") and len(q[2]) > 1]
+        if not lens and buf[0] == "call" and buf[1].split("::")[-1] in ("new", "with_capacity"):
+            # the safe form: a Vec sized in place before the read (`v.resize(length, 0)`), nothing else changing its length in between
+            sizers = [(x, o.call_args(x)) for x, t in b.calls(lambda c: (c.short or "").startswith("std::vec::Vec") and (c.short or "").split("::")[-1] in ("resize", "truncate", "set_len", "clear", "extend_from_slice", "push", "resize_with"))
+                      if b.dominates(x, bi) and nosite(strip(o.call_args(x)[0])) == nosite(buf)]
+            if len(sizers) == 1 and (CalleeView(b.term(sizers[0][0])["callee"]).short or "").split("::")[-1] == "resize":
+                lens = [sizers[0][1][1]]
         ok = bool(lens) and all(is_len(x) for x in lens)
         ctx.check(ok, R, "buffer=request", b.where(bi), "the reader is handed a buffer of exactly the requested length", "the buffer handed to the reader has length %s, not the requested length" % ([show(x)[:60] for x in lens] or show(buf)[:80]))
     ex = Exits(b)
